@@ -19,7 +19,7 @@ var fsWriters = map[string]bool{"os.OpenFile": true, "os.Create": true, "os.Writ
 
 func checkC20(r *Run) propMeta {
 	meta := propMeta{Level: "other",
-		Explanation: "Decides the structural clauses that make hostile input harmless: (R1) verify-before-mutate — in Load every call that can write nodes or relationships to the target database is preceded, as an error-gated top-level step, by manifest reading/validation, verification of every fragment (with checksum verification switched on) and the empty-target check; the preflight's and the load pass's source-ID indexes are constructed per graph; (R2) path taint — no file-system write primitive reachable from the unpack/load entry points receives a path derived from tar header fields except through sanitizeArchivePath; (R3) regular files only — the extraction loop rejects every Typeflag other than regular, duplicates and negative sizes before any file is created, and files are created with O_EXCL; (R4) staging — every exported entry point that can reach extraction extracts into a private staging directory that is removed on every error and promoted only after validateExtractedCollection; (R5) envelope — the AEAD additional data binds header hash, frame index and frame type, the reader's header hash is a digest of the header bytes as read from the stream (the io.ReadFull buffer), never of a re-encoding, end-of-stream is accepted only after an empty final frame followed by EOF, the stream is drained after the tar ends, and no error of the crypto/tar/json decoders is discarded. NOT decided: cryptographic strength, byte-exact mutation coverage, the sanitizer's own completeness beyond the checks it visibly performs.",
+		Explanation: "Decides the structural clauses that make hostile input harmless: (R1) verify-before-mutate — in Load every call that can write nodes or relationships to the target database is preceded, as an error-gated top-level step, by manifest reading/validation, verification of every fragment (with checksum verification switched on) and the empty-target check; the preflight's and the load pass's source-ID indexes are constructed per graph; (R2) path taint — no file-system write primitive reachable from the unpack/load entry points receives a path derived from tar header fields except through sanitizeArchivePath; (R3) regular files only — the extraction loop rejects every Typeflag other than regular, duplicates and negative sizes before any file is created, and files are created with O_EXCL; (R4) staging — every exported entry point that can reach extraction extracts into a private staging directory that is removed on every error and promoted only after validateExtractedCollection; (R5) envelope — the AEAD additional data binds header hash, frame index and frame type, the reader's header hash is a digest of the header bytes as read from the stream (the io.ReadFull buffer), never of a re-encoding, end-of-stream is accepted only after an empty final frame followed by EOF, the stream is drained after the tar ends, and no error of the crypto/tar/json decoders is discarded. (R6) single-document JSON inputs (manifest, checkpoint, fragment lines, key envelope) are decoded strictly: json.Unmarshal of the whole input, or Decoder.Decode followed by an end-of-input test. NOT decided: cryptographic strength, byte-exact mutation coverage, the sanitizer's own completeness beyond the checks it visibly performs.",
 		Assumptions: []string{"HPKE/AEAD Open fails on any change to ciphertext or additional data (library contract)", "archive/tar yields each entry's header before its content"},
 		TrustedBase: []string{"go/types", "this analyser"}}
 	if err := r.Load("./retriever/..."); err != nil {
@@ -35,6 +35,7 @@ func checkC20(r *Run) propMeta {
 	checkEnvelope(r, p, cg, decls)
 	checkHeaderHashRaw(r, p, decls)
 	checkPerGraphResolver(r, p)
+	checkStrictDocumentDecoding(r, p, nil, cg)
 	r.Floor("C20-R1-verify-before-mutate", 6)
 	r.Floor("C20-R2-path-taint", 3)
 	r.Floor("C20-R3-regular-only", 4)
@@ -1191,4 +1192,118 @@ func checkPerGraphResolver(r *Run, p *packages.Package) {
 	if n < 2 {
 		r.Undecide("C20-R1: expected the preflight and the load pass to construct a nodeIDResolver, found %d construction sites", n)
 	}
+}
+
+// checkStrictDocumentDecoding (R6): json.Unmarshal rejects anything after the document; json.Decoder.Decode stops at the
+// end of the first value and leaves the rest unread.  A manifest, checkpoint or header read with a single Decode and no
+// end-of-input test accepts the file with arbitrary bytes appended (a second manifest, a NUL, a stray brace): a
+// corrupted file loads as if it were intact.  Decoders that read a stream of values in a loop are not judged.
+func checkStrictDocumentDecoding(r *Run, p *packages.Package, reach map[*types.Func]*cgEdge, cg *CallGraph) {
+	const rule = "C20-R6-strict-decoding"
+	info := p.TypesInfo
+	tbl := r.LoadTable("c20_decoding_exempt")
+	n := 0
+	for _, f := range p.Syntax {
+		for _, d := range f.Decls {
+			fd, ok := d.(*ast.FuncDecl)
+			if !ok || fd.Body == nil {
+				continue
+			}
+			var decodes []*ast.CallExpr
+			strict := false
+			var stack []ast.Node
+			inLoop := map[*ast.CallExpr]bool{}
+			ast.Inspect(fd.Body, func(x ast.Node) bool {
+				if x == nil {
+					stack = stack[:len(stack)-1]
+					return true
+				}
+				stack = append(stack, x)
+				call, ok := x.(*ast.CallExpr)
+				if !ok {
+					return true
+				}
+				sel, ok := call.Fun.(*ast.SelectorExpr)
+				if !ok {
+					return true
+				}
+				recvT := info.TypeOf(sel.X)
+				if recvT == nil || namedName(recvT) != "Decoder" || namedOf(recvT) == nil || namedOf(recvT).Obj().Pkg() == nil || namedOf(recvT).Obj().Pkg().Path() != "encoding/json" {
+					return true
+				}
+				switch sel.Sel.Name {
+				case "Decode":
+					decodes = append(decodes, call)
+					for _, anc := range stack {
+						switch anc.(type) {
+						case *ast.ForStmt, *ast.RangeStmt:
+							inLoop[call] = true
+						}
+					}
+				case "More":
+					strict = true
+				}
+				return true
+			})
+			if len(decodes) == 0 {
+				continue
+			}
+			// a second Decode whose error is compared with io.EOF
+			ast.Inspect(fd.Body, func(x ast.Node) bool {
+				be, ok := x.(*ast.BinaryExpr)
+				if !ok || (be.Op != token.NEQ && be.Op != token.EQL) {
+					return true
+				}
+				for _, side := range []ast.Expr{be.X, be.Y} {
+					if s, ok := ast.Unparen(side).(*ast.SelectorExpr); ok && s.Sel.Name == "EOF" && len(decodes) >= 2 {
+						strict = true
+					}
+				}
+				return true
+			})
+			for i, dc := range decodes {
+				if inLoop[dc] && len(decodes) == 1 {
+					// value stream: the loop itself consumes the input
+					continue
+				}
+				if i > 0 {
+					continue // the trailing-data probe itself
+				}
+				n++
+				construct := funcDeclName(fd) + ":" + exprString(r.Fset, dc.Fun)
+				if len(construct) > 100 {
+					construct = construct[:100]
+				}
+				if strict {
+					r.Pass(rule, construct, dc.Pos(), "the document is decoded and the rest of the input is required to be empty")
+				} else if reason, ok := r.InTable(tbl, "c20_decoding_exempt", funcDeclName(fd)); ok {
+					r.Pass(rule, construct, dc.Pos(), "table: %s", reason)
+				} else {
+					r.Fail(rule, construct, dc.Pos(), "%s decodes one JSON value with Decoder.Decode and never checks that nothing follows it (no second Decode == io.EOF, no More()): bytes appended to the file are ignored, so an extended or concatenated manifest is accepted as intact", funcDeclName(fd))
+				}
+			}
+		}
+	}
+	// the manifest itself must be read strictly: either json.Unmarshal of the whole file or a judged decoder
+	if rm := FuncDecls(p)["readManifest"]; rm != nil {
+		usesUnmarshal := stmtHasCall(rm.Body, func(c *ast.CallExpr) bool {
+			fn := calleeOf(info, c)
+			return fn != nil && funcFullName(fn) == "encoding/json.Unmarshal"
+		})
+		usesDecoder := stmtHasCall(rm.Body, func(c *ast.CallExpr) bool {
+			sel, ok := c.Fun.(*ast.SelectorExpr)
+			return ok && sel.Sel.Name == "Decode"
+		})
+		if usesUnmarshal && !usesDecoder {
+			n++
+			r.Pass(rule, "readManifest:json.Unmarshal", rm.Pos(), "the whole file is handed to json.Unmarshal, which rejects trailing data")
+		} else if !usesDecoder {
+			r.Undecide("C20-R6: readManifest neither calls json.Unmarshal nor a Decoder")
+		}
+	}
+	if n < 3 {
+		r.Undecide("C20-R6: expected at least three single-document JSON reads in package retriever, found %d", n)
+	}
+	_ = reach
+	_ = cg
 }
